@@ -96,7 +96,19 @@ func RunModel(bin string, sc *Scenario, impl *ImplRun, checkSizes bool) (*ModelR
 	mr := &ModelRun{}
 	namer := NewPubNamer()
 	env := &canonEnv{sidMap: map[string]string{}, authIDs: map[string]bool{}}
-	sid := func(i int) string { return strconv.FormatInt(modelSid(i), 10) }
+	joined := map[int]int{} // session index -> realm, for sessions attached so far
+	sid := func(i int) string {
+		if _, ok := joined[i]; ok {
+			return strconv.FormatInt(modelSid(i), 10)
+		}
+		return "999999"
+	}
+	realmOf := func(recv int) int {
+		if r, ok := joined[recv]; ok {
+			return r
+		}
+		return -1
+	}
 	for i := range impl.Results {
 		r := &impl.Results[i]
 		op := r.Op
@@ -114,14 +126,26 @@ func RunModel(bin string, sc *Scenario, impl *ImplRun, checkSizes bool) (*ModelR
 			}
 			op.M = op.M.resolved(id, sid, namer.ID)
 		}
-		gone := map[int]bool{}
-		for _, s := range r.Left {
-			gone[s] = true
+		if op.Kind == "join" && r.Failed == "" {
+			joined[op.Sess] = op.Realm
 		}
 		try := func(oracle int) (map[int][]string, []int, *PubNamer, error) {
 			obs, sizes, err := p.Send(modelLine("try", &op, oracle))
 			if err != nil {
 				return nil, nil, nil, err
+			}
+			if op.Kind == "tick" { // virtual time passes in every realm
+				for j := range sc.Realms {
+					if j != op.Realm {
+						o2 := op
+						o2.Realm = j
+						more, _, err := p.Send(modelLine("try", &o2, oracle))
+						if err != nil {
+							return nil, nil, nil, err
+						}
+						obs = append(obs, more...)
+					}
+				}
 			}
 			nm := &PubNamer{toName: map[string]string{}, toID: map[string]string{}, n: namer.n}
 			for k, v := range namer.toName {
@@ -137,7 +161,7 @@ func RunModel(bin string, sc *Scenario, impl *ImplRun, checkSizes bool) (*ModelR
 				}
 				kept = append(kept, o)
 			}
-			return CanonOp(kept, r.Left, env, nm), sizes, nm, nil
+			return CanonOp(kept, r.Left, env, nm, realmOf), sizes, nm, nil
 		}
 		oracle := 0
 		canon, sizes, nm, err := try(0)
@@ -155,6 +179,15 @@ func RunModel(bin string, sc *Scenario, impl *ImplRun, checkSizes bool) (*ModelR
 		}
 		if _, _, err := p.Send(modelLine("do", &op, oracle)); err != nil {
 			return mr, &Mismatch{OpIndex: i, What: "model-error", Detail: err.Error()}, nil
+		}
+		if op.Kind == "tick" {
+			for j := range sc.Realms {
+				if j != op.Realm {
+					o2 := op
+					o2.Realm = j
+					p.Send(modelLine("do", &o2, oracle))
+				}
+			}
 		}
 		*namer = *nm
 		mr.Canon = append(mr.Canon, canon)
